@@ -88,6 +88,35 @@ def dataUnit (w : Nat) (rs : List Rng) : List Nat := (encodeWords rs).flatMap (t
 def rangeFile (q : Qty) (w depth : Nat) (rs : List Rng) : List Nat :=
   fileOf w (mocCards q w depth) (encodeWords rs)
 
+/-- An optional string card. -/
+def optCard (kw : List Char) : Option (List Char) → List (List Char)
+  | some v => [cardFree kw (quoted v)]
+  | none => []
+
+/-- The same cards with the optional `MOCID` (before `MOCTOOL`) and `MOCTYPE` (after it) of
+    `to_fits_ivoa(Some(id), Some(type))`, at their places in the keyword map. -/
+def mocCardsWith (q : Qty) (w depth : Nat) (id ty : Option (List Char)) : List (List Char) :=
+  let tf := cardFree ['T', 'F', 'O', 'R', 'M', '1', ' ', ' '] (quoted (tform w))
+  let tt := cardFree ['T', 'T', 'Y', 'P', 'E', '1', ' ', ' '] (quoted ['R', 'A', 'N', 'G', 'E'])
+  let tool := cardFree ['M', 'O', 'C', 'T', 'O', 'O', 'L', ' '] (quoted ['C', 'D', 'S', ' ', 'M', 'O', 'C', ' ', 'R', 'u', 's', 't', ' ', 'l', 'i', 'b'])
+  let idc := optCard ['M', 'O', 'C', 'I', 'D', ' ', ' ', ' '] id
+  let tyc := optCard ['M', 'O', 'C', 'T', 'Y', 'P', 'E', ' '] ty
+  [cardFree ['M', 'O', 'C', 'V', 'E', 'R', 'S', ' '] (quoted ['2', '.', '0']),
+   cardFree ['M', 'O', 'C', 'D', 'I', 'M', ' ', ' '] (quoted (if q.name == "HPX" then ['S', 'P', 'A', 'C', 'E'] else if q.name == "TIME" then ['T', 'I', 'M', 'E'] else ['F', 'R', 'E', 'Q', 'U', 'E', 'N', 'C', 'Y'])),
+   cardFree ['O', 'R', 'D', 'E', 'R', 'I', 'N', 'G'] (quoted ['R', 'A', 'N', 'G', 'E'])] ++
+  (if q.name == "HPX" then
+     [cardFree ['C', 'O', 'O', 'R', 'D', 'S', 'Y', 'S'] (quoted ['C'])] ++ idc ++ [tool] ++ tyc ++
+       [cardFree ['M', 'O', 'C', 'O', 'R', 'D', '_', 'S'] (showNat depth), tf, tt]
+   else if q.name == "TIME" then
+     [cardFree ['T', 'I', 'M', 'E', 'S', 'Y', 'S', ' '] (quoted ['T', 'C', 'B'])] ++ idc ++ [tool] ++ tyc ++
+       [cardFree ['M', 'O', 'C', 'O', 'R', 'D', '_', 'T'] (showNat depth), tf, tt]
+   else
+     idc ++ [tool] ++ tyc ++ [tf, tt, cardFree ['M', 'O', 'C', 'O', 'R', 'D', '_', 'F'] (showNat depth)])
+
+/-- The whole file written with an identifier and / or a type. -/
+def rangeFileWith (q : Qty) (w depth : Nat) (id ty : Option (List Char)) (rs : List Rng) : List Nat :=
+  fileOf w (mocCardsWith q w depth id ty) (encodeWords rs)
+
 /-- The cards of `rangemoc2d_to_fits_ivoa` (ST-MOC, version 2, no id, no type). -/
 def stCards (w d1 d2 : Nat) : List (List Char) :=
   [cardFree ['M', 'O', 'C', 'V', 'E', 'R', 'S', ' '] (quoted ['2', '.', '0']),
